@@ -1,9 +1,9 @@
-SPECIFICATION Spec
+SPECIFICATION MCSpec
 CONSTANTS
   BITS = 2
   Thresh = 3
   MaxStr = 6
-  MaxBlock = 6
+  MaxBlock = 7
   DropLeadingZeros = FALSE
   LenientLen = FALSE
   NaiveOverlap = FALSE
@@ -13,7 +13,7 @@ CONSTANTS
   NumSet <- MCNums
   StrSet <- MCStrs
   ByteStrs <- MCBytes
-  BlockSet <- MCBlocks
+  BlockSet = {}
   PrefSet <- MCPrefs
   BufSet <- MCBufs
   DataSet <- MCData
